@@ -140,7 +140,7 @@ func oracle(c acc.Case, m meta, idx int, host string, res *lib.Result) {
 	}
 	scopes := x.Auth.Classify().Claims.Scopes
 	need := "relay:admin"
-	if x.Route == "status" {
+	if x.Route == "status" || x.Canon == "status" {
 		need = "relay:stats"
 	}
 	entitled := x.Auth.ValidPrincipal(now, host) && has(scopes, need)
@@ -163,7 +163,7 @@ func oracle(c acc.Case, m meta, idx int, host string, res *lib.Result) {
 		}
 		bad(clause, fmt.Sprintf("answered %d to a principal without a valid token carrying %q", o.Status, need))
 	}
-	if !entitled && x.Auth.ValidPrincipal(now, host) && !is2xx && o.Status != 401 {
+	if !entitled && x.Route != "notfound" && x.Auth.ValidPrincipal(now, host) && !is2xx && o.Status != 401 {
 		bad("missing-scope-is-401", fmt.Sprintf("valid token without %q answered %d, not 401", need, o.Status))
 	}
 	if !is2xx {
@@ -225,6 +225,7 @@ func main() {
 
 func work(a lib.Args) {
 	res := lib.NewResult("C09", a.Seed, a.Tier)
+	res.ShardSize = 80 // histories are long: smaller shards spread over the Coq workers
 	rng := lib.NewRng(a.Seed)
 	mocks := map[bool]*acc.Env{false: acc.StartMockAPI(false), true: acc.StartMockAPI(true)}
 	real := acc.StartRealRelay(rng.Bool())
@@ -296,6 +297,52 @@ func work(a lib.Args) {
 		n++
 	}
 
+	// the request-path dimension: non-canonical spellings of every admin / status endpoint over the raw connection,
+	// crossed with {exact scope, session scopes, look-alike scopes, no token}
+	genSpelling := func(r *lib.Rng, rt string, sp acc.Spelling, kind int) {
+		e := mocks[r.Bool()]
+		now := int64(1600000000 + r.Intn(200000000))
+		name := "c09-" + strconv.Itoa(n)
+		adm := acc.ScopeBearer(e.Cfg.Host, now, []string{"relay:admin"})
+		bkD, bkA := "den-"+name, "alw-"+name
+		scope := "relay:admin"
+		if rt == "status" {
+			scope = "relay:stats"
+		}
+		var auth acc.Bearer
+		class := ""
+		switch kind {
+		case 0:
+			auth, class = acc.ScopeBearer(e.Cfg.Host, now, []string{scope}), "exact-scope"
+		case 1:
+			auth, class = acc.SessionBearer(e.Cfg.Host, now, "topic-"+name, "bk-"+name, []string{"read", "write"}), "session"
+			auth.Label = "session-token"
+		case 2:
+			auth, class = acc.ScopeBearer(e.Cfg.Host, now, []string{lookalikes[r.Intn(len(lookalikes))], "relay:admin ", "relay:stat"}), "lookalikes"
+			if rt != "status" { // "relay:stats" is a look-alike only on the admin endpoints
+				auth.Claims["scopes"] = []string{"relay:stats", "relay:admin "}
+			}
+		default:
+			auth, class = acc.Bearer{Kind: "none", Label: "raw:no-header"}, "no-token"
+		}
+		if auth.Label == "" {
+			auth.Label = "good"
+		}
+		target := bkA
+		if rt == "allow" {
+			target = bkD
+		}
+		x := acc.Respell(mkReq(rt, auth, target, now+300), sp)
+		ld := mkReq("listdeny", adm, "", 0)
+		la := mkReq("listallow", adm, "", 0)
+		d0 := mkReq("deny", adm, bkD, now+1000)
+		a0 := mkReq("allow", adm, bkA, now+1000)
+		ops := []acc.Op{{K: "req", Req: &d0}, {K: "req", Req: &a0}, {K: "req", Req: &ld}, {K: "req", Req: &la}, {K: "req", Req: &x}, {K: "req", Req: &ld}, {K: "req", Req: &la}}
+		cases = append(cases, acc.Case{Name: name, T0: now, Ops: ops, Cfg: e.Cfg, Mode: "mock"})
+		metas = append(metas, meta{kind: "lists", x: 4, class: class, before: []int{2, 3}, after: []int{5, 6}})
+		n++
+	}
+
 	genBystander := func(r *lib.Rng) {
 		e := real
 		now := time.Now().Unix()
@@ -327,6 +374,39 @@ func work(a lib.Args) {
 		adm.Claims["exp"] = now + 600
 		dn := mkReq("deny", adm, bk, now+600)
 		ops := []acc.Op{{K: "req", Req: &s0}, {K: "ws", Ws: &w}, {K: "req", Req: &st}, {K: "req", Req: &x}, {K: "req", Req: &st}, {K: "req", Req: &dn}, {K: "req", Req: &st}}
+		// back to back: right after a genuine success on /status and on each list endpoint, the same call by
+		// principals that must be refused (no token, session token, look-alike scope, wrong secret, expired) -
+		// whatever the relay remembers from the genuine call must not serve them
+		refused := func(route, scope string) []acc.Bearer {
+			la := acc.ScopeBearer(e.Cfg.Host, now, []string{scope + " ", strings.TrimSuffix(scope, "s"), "read"})
+			la.Claims["exp"] = now + 600
+			la.Label = "lookalike"
+			ws := acc.ScopeBearer(e.Cfg.Host, now, []string{scope})
+			ws.Claims["exp"] = now + 600
+			ws.Secret = "wrong"
+			ws.Label = "secret:wrong"
+			ex := acc.ScopeBearer(e.Cfg.Host, now, []string{scope})
+			ex.Claims["exp"] = now - 10
+			ex.Label = "exp:past"
+			st2 := ses
+			st2.Label = "session-token"
+			all := []acc.Bearer{{Kind: "none", Label: "raw:no-header"}, st2, la, ws, ex}
+			i := r.Intn(len(all))
+			return []acc.Bearer{all[i], all[(i+1+r.Intn(len(all)-1))%len(all)], all[(i+2)%len(all)]}
+		}
+		back := func(route, scope string, genuine acc.Req) {
+			g := genuine
+			g.Label = "genuine"
+			ops = append(ops, acc.Op{K: "req", Req: &g})
+			for _, b := range refused(route, scope) {
+				q := mkReq(route, b, "", 0)
+				q.Label = "right-after-genuine"
+				ops = append(ops, acc.Op{K: "req", Req: &q})
+			}
+		}
+		back("status", "relay:stats", st)
+		back("listdeny", "relay:admin", mkReq("listdeny", adm, "", 0))
+		back("listallow", "relay:admin", mkReq("listallow", adm, "", 0))
 		c := acc.Case{Name: name, T0: now, Ops: ops, Cfg: e.Cfg, Mode: "real"}
 		cases = append(cases, c)
 		metas = append(metas, meta{kind: "bystander", x: 3, class: ss.class, before: []int{2}, after: []int{4}})
@@ -368,6 +448,18 @@ func work(a lib.Args) {
 		for _, rt := range endpoints {
 			for k := range acc.AudienceVariants("http://127.0.0.1:1") {
 				genAudience(rng.Fork(), rt, k)
+			}
+		}
+		for _, rt := range endpoints {
+			for _, sp := range acc.PathSpellings() {
+				if sp.Resolves {
+					for kind := 0; kind < 4; kind++ {
+						genSpelling(rng.Fork(), rt, sp, kind)
+					}
+				} else {
+					r := rng.Fork()
+					genSpelling(r, rt, sp, r.Intn(4))
+				}
 			}
 		}
 		for i := 0; i < a.Pick(40, 400); i++ {
@@ -465,6 +557,9 @@ func work(a lib.Args) {
 		} else {
 			oracle(c, metas[i], kept, host, res)
 			idx = []string{lib.N(uint64(executedIndex(c, metas[i].x)))}
+			if metas[i].kind == "bystander" {
+				oracleHist(c, kept, res) // every call of the whole-relay history is judged, not only X
+			}
 		}
 		coq = append(coq, lib.Tuple(c.Coq(), lib.List(idx)))
 		res.Cases = append(res.Cases, c)
